@@ -34,6 +34,7 @@ def runC04 (op : String) (j : Json) : R Json := do
     match load (fun a => a) d with
     | .error (.missing w) => pure (Json.mkObj [("error", Json.str ("missing " ++ w))])
     | .error .nonMonotone => pure (Json.mkObj [("error", Json.str "non_monotone")])
+    | .error (.conflict w) => pure (Json.mkObj [("error", Json.str ("conflict " ++ w))])
     | .ok (v, d') =>
       let times := match v.times with
         | .samplesOverRate s => Json.mkObj [("samples_over_rate", jArr04 s)]
